@@ -619,7 +619,7 @@ class Spec:
 # --------------------------------------------------------------------------------------------
 # history generation (interleaved with execution on the real objects)
 # --------------------------------------------------------------------------------------------
-def make_world(rng, parsed: bool):
+def make_world(rng, parsed: bool, string_subclasses: bool = True):
     """Returns (world, kinds, prefix_ops): prefix_ops rebuild the same start forest in the model by appends."""
     n_soup = rng.choice([1, 1, 2])
     n_tag = rng.randint(3, 9)
@@ -692,7 +692,7 @@ def make_world(rng, parsed: bool):
         elif k == "r":
             o = BeautifulSoup("", "html.parser")
         elif k == "s":
-            o = plain_string_class(i, len(kinds))(f"{i}.")
+            o = (plain_string_class(i, len(kinds)) if string_subclasses else NavigableString)(f"{i}.")
         else:
             o = Comment(f"{i}.")
         w.register(o, i)
@@ -707,7 +707,7 @@ def ancestors_or_self(o):
     return out
 
 
-def gen_op(rng, w: World, stats) -> Optional[str]:
+def gen_op(rng, w: World, stats, string_objects=True) -> Optional[str]:
     """One random editing call within the quantifier of C01/C02, chosen by looking at the real forest."""
     from bs4.element import Tag
     objs = w.live()
@@ -808,7 +808,7 @@ def gen_op(rng, w: World, stats) -> Optional[str]:
             return f"de:{l}"
         if k == "sm" and tags and not getattr(w, "twin", False) and not getattr(w, "se_used", False):
             return f"sm:{rng.choice(tags)[0]}"
-        if k == "se" and tags and rng.random() < 0.5:
+        if k == "se" and string_objects and tags and rng.random() < 0.5:
             from bs4.element import NavigableString
             l, o = rng.choice(tags)
             chains = [(l2, o2) for l2, o2 in tags if o2.string is not None and isinstance(o2.contents[0], Tag)]
